@@ -91,16 +91,20 @@ let handle_src (w : Stdlib.String.t list) : Stdlib.String.t =
   | ["b64d"; s] ->
       let s = unhex s in
       (* the C++ driver decodes into a buffer large enough for any text: 3 bytes per 4 symbols + slack *)
-      let cap = 3 * (List.length s / 4) + 8 in
-      (match Model.src_b64_decode (nat_of_int cap) s with
-       | SOk (ok, o) -> if ok then "OKBUF " ^ hex o else "FALSE"
-       | SErr w -> "ERR " ^ coqstr w)
+      (* like the C++ driver: decode twice into differently pre-filled buffers, the written prefix is where they agree *)
+      let cap = List.length s + 64 in
+      (match Model.src_b64_decode (nat_of_int cap) (n_of_int 0xAA) s, Model.src_b64_decode (nat_of_int cap) (n_of_int 0x55) s with
+       | SOk (ok, o1), SOk (_, o2) ->
+           if not ok then "FALSE" else begin
+             let rec pre a b = match a, b with x :: a', y :: b' when x = y -> x :: pre a' b' | _ -> [] in
+             "OK " ^ hex (pre o1 o2) end
+       | SErr w, _ | _, SErr w -> "ERR " ^ coqstr w)
   | ["b64v"; s] -> (match Model.src_b64_valid (unhex s) with SOk b -> if b then "1" else "0" | SErr w -> "ERR " ^ coqstr w)
   | ["key"; s] ->
       let s = unhex s in
       (match Model.src_b64_valid s with
        | SOk false -> "REJECT"
-       | SOk true -> (match Model.src_b64_decode (nat_of_int 16) s with
+       | SOk true -> (match Model.src_b64_decode (nat_of_int 16) N0 s with
                       | SOk (true, o) -> "OK " ^ hex o
                       | SOk (false, _) -> "BAD"
                       | SErr w -> "OVERFLOW " ^ coqstr w)
